@@ -251,6 +251,72 @@ def dmig_part(run, bulk, np, pd):
             run.sample({"dmig M": M, "form": form, "entries": entries})
 
 
+def card_ids(text, name, lead):
+    """neutral parse of small-field cards `name, <lead leading fields>, ids with optional THRU ...` (continuation lines have a blank or '+'
+    first cell): the id sequence of all cards in the text and the list of leading-field tuples"""
+    out, leads, toks = [], [], None
+
+    def flush():
+        if toks is None:
+            return
+        leads.append(tuple(toks[:lead]))
+        body = toks[lead:]
+        i = 0
+        while i < len(body):
+            if i + 2 < len(body) and body[i + 1].upper() == "THRU":
+                out.extend(range(int(body[i]), int(body[i + 2]) + 1))
+                i += 3
+            else:
+                out.append(int(body[i]))
+                i += 1
+    for ln in text.splitlines():
+        if not ln.strip() or ln.startswith("$"):
+            continue
+        c = [x.strip() for x in cells(ln[:72])]
+        if c[0].upper() == name:
+            flush()
+            toks = [x for x in c[1:] if x]
+        elif c[0] in ("", "+") and toks is not None:
+            toks.extend(x for x in c[1:] if x)
+        else:
+            raise ValueError("unexpected line %r" % ln)
+    flush()
+    return out, leads
+
+
+def other_thru_writers(run, bulk, ids, case):
+    """growth (cards the property does not name): SESET, BSET1-style and SPC1-style writers share the run detector of SPOINT / SET; their
+    cards must denote the ids given, in order, under the leading fields given - by the neutral parse and through the generic card reader"""
+    for fn, args, name, lead, want_lead in (("wtseset", (5, ids), "SESET", 1, ("5",)),
+                                            ("wtxset1", (1246, ids, "BSET1"), "BSET1", 1, ("1246",)),
+                                            ("wtspc1", (3, 123, ids), "SPC1", 2, ("3", "123"))):
+        try:
+            f = io.StringIO()
+            getattr(bulk, fn)(f, *args)
+            txt = f.getvalue()
+            got, leads = card_ids(txt, name, lead)
+            if got != ids or any(l != want_lead for l in leads) or not leads:
+                run.deviation("BulkLists (other THRU writers)", "%s: the cards do not denote the given ids in the given order under the given leading fields" % fn,
+                              dict(case, text=txt, parsed=got))
+                continue
+            rows = bulk.rdcards(io.StringIO(txt), name.lower(), return_var="list")
+            flat = []
+            for row in (rows or []):
+                body = [x for x in list(row)[lead:] if x != ""]
+                i = 0
+                while i < len(body):
+                    if i + 2 < len(body) and str(body[i + 1]).strip().upper() == "THRU":
+                        flat.extend(range(int(body[i]), int(body[i + 2]) + 1))
+                        i += 3
+                    else:
+                        flat.append(int(body[i]))
+                        i += 1
+            if flat != ids:
+                run.deviation("BulkLists (other THRU writers)", "%s + rdcards: fields read back denote %r" % (fn, flat), dict(case, text=txt))
+        except Exception as ex:
+            run.deviation("BulkLists (other THRU writers)", "%s: raised %r" % (fn, ex), case)
+
+
 def perms_part(run, bulk, np):
     """id lists in any order (BulkLists Mode "perms"): every arrangement of up to MaxN distinct ids from a pool of MaxN+1, two offsets"""
     cfg = "MC_BulkLists_perms.cfg" if run.tier == "quick" else "MC_BulkLists_perms_t.cfg"
@@ -289,6 +355,7 @@ def perms_part(run, bulk, np):
                     fail("wtset/rdsets(max_length=%d): read back %r" % (ml, back), text=txt)
             except Exception as ex:
                 fail("wtset: raised %r" % ex)
+        other_thru_writers(run, bulk, ids, case)
         try:
             f = io.StringIO()
             bulk.wtcsuper(f, 55, ids)
